@@ -304,7 +304,7 @@ func init() {
 	fw.Register(&fw.Prop{
 		ID:    "C12",
 		Level: "exploration",
-		Rule: "inputs derived from grammar-generated programs (C13's generator) and the repository's fixtures by: truncation at a PRNG offset, byte flips, inserted lone directives/modifiers/unterminated quotes (50 fragments), single truncated lines, 10-10000-deep $if, 64 KiB-1 MiB lines, CR/LF/NUL mixes, random bytes, and include graphs (self, 2-cycle, chain, diamond, missing, erroring, cycle inside $if, a file including itself twice, two files including each other twice) served through ReadFileFunc; x strict x halt-on-error x (mode, term, app); each parsed in a worker process through ParseBytes and Parser.Parse (texts with $include also into a Config made by NewConfig() without a ReadFileFunc); oracle = returns without panic or fatal error and with at most 200000 ReadFile calls. " +
+		Rule: "inputs derived from grammar-generated programs (C13's generator) and the repository's fixtures by: truncation at a PRNG offset, byte flips, inserted lone directives/modifiers/unterminated quotes (50 fragments), single truncated lines, 10-10000-deep $if, 64 KiB-1 MiB lines, CR/LF/NUL mixes, random bytes, and include graphs (self, 2-cycle, chain, diamond, missing, erroring, cycle inside $if, a file including itself twice, two files including each other twice, a file including itself three or four times) served through ReadFileFunc; x strict x halt-on-error x (mode, term, app); each parsed in a worker process through ParseBytes and Parser.Parse (texts with $include also into a Config made by NewConfig() without a ReadFileFunc); oracle = returns without panic or fatal error and with at most 200000 ReadFile calls. " +
 			"distinct non-trivial = distinct (mutation kind, strict, halt, length class) tuples",
 		Assumptions: []string{"a fatal runtime error (stack overflow) kills the worker and is attributed by the driver to the case that was running", "more than 200000 ReadFile calls for one parse on <= 6 files is 'recurses without bound'"},
 		N: func(tier string) int {
